@@ -585,11 +585,12 @@ theorem nonvacuous_cnt :
     (0 : ℝ) = lastTemp exOc.start [(⟨0, 10⟩ : Hold ℝ)] ∧
     (segments exOc.rate 1 exOc.start [(⟨0, 10⟩ : Hold ℝ)]).length
       + ⌊(lastTemp exOc.start [(⟨0, 10⟩ : Hold ℝ)] - 0) / exOc.rate⌋₊ < nSteps exOc.t_tot 1 := by
-  refine ⟨⟨one_pos, ?_, ?_, ?_, ?_⟩, ?_, by simp, ?_, ?_, ?_, ?_⟩
+  refine ⟨⟨one_pos, ?_, ?_, ?_, ?_, ?_⟩, ?_, by simp, ?_, ?_, ?_, ?_⟩
   · simp [exOc]
   · simp [exOc]
   · simp [exOc, Desc]
   · simp [exOc, lastTemp]
+  · simp [exOc]
   · simp [exOc, allHolds]
   · simp
   · simp
@@ -616,7 +617,7 @@ theorem nonvacuous_cnt_ramp :
     ⌊((20 : ℝ) - 5) / 1⌋₊ < nSteps (100 : ℝ) 1 ∧
     cntOf (profile (⟨100, 20, -20, 1, []⟩ : OpCond ℝ) 1) 5 = 15 := by
   have hwf : C05.WF (⟨100, 20, -20, 1, []⟩ : OpCond ℝ) 1 :=
-    ⟨one_pos, by simp, by simp, by simp [Desc], by simp [lastTemp]⟩
+    ⟨one_pos, by simp, by simp, by simp [Desc], by simp [lastTemp], by simp⟩
   have hfl : ⌊((20 : ℝ) - 5) / 1⌋₊ = 15 := by norm_num
   have hn : nSteps (100 : ℝ) 1 = 101 := by
     unfold nSteps; simp only [ceilInt_real]; norm_num; rfl
